@@ -41,6 +41,10 @@ checks = [
   "bounded-exhaustive enumeration of derived geometry pairs (perturbation patterns, all member permutations, all ring rotations, every single displacement, deletion, duplication, reversal, type change) on the real Similar vs the truth table of the statement, both directions",
   "For 19 base geometries of all eight types and two tolerances every derived geometry of the listed kinds is compared in both directions; the expected value follows from the statement alone.",
   "Catalogue members are >= 90 apart so matching is unambiguous; larger geometries are outside the bound.", "4/C15"),
+ ("C16", MC, "E1",
+  "bounded-exhaustive enumeration of record sequences x shapes x coordinate patterns x attribute edge values x both APIs, each written by the real Encoder and read back by the real Decoder",
+  "Every shape with 1..3 parts x 1..3 vertices of the six writable geometry kinds, with every rotation of 19 finite coordinate patterns, as single records, ordered pairs, triples and the empty file, with integer / string / float edge values, through NewEncoder/Encode/DecodeRow (tags and names in different letter case) and NewEncoderFromFields/EncodeFields/DecodeRowFields; order, count, bit-identical coordinates, closing of rings, box rectangles and attribute values are compared.",
+  "Files are written to a private directory under /dev/shm (or TMPDIR). Null shapes and Z/M types are outside the alphabet. One known finding (blank-trimmed strings) is listed in known_findings.json.", "4/C16"),
  ("C17", MC, "E1",
   "bounded-exhaustive enumeration of structure trees x finite float patterns on the real WKT encoder vs an independent recursive-descent OGC WKT parser",
   "Every tree of the five types (1..3 members, 1..3 vertices) with every rotation of 19 finite float64 patterns, incl. repeated vertices, is encoded and the text parsed by an independent parser of the OGC grammar to a bit-identical geometry; unsupported types must be rejected.",
